@@ -639,7 +639,10 @@ class Tally(StatisticsInterface):
         """
         n = float(self._n)
         if n > 1:
-            skew_biased = (self._m3 / n) / self.variance() ** 1.5 
+            variance = self.variance()
+            if not variance > 0.0:
+                return math.nan
+            skew_biased = (self._m3 / n) / variance ** 1.5 
             if biased:
                 return skew_biased
             elif n > 2:
@@ -687,9 +690,13 @@ class Tally(StatisticsInterface):
         if biased:
             if n > 2:
                 d2 = (self._m2 / n)
+                if not d2 > 0.0:
+                    return math.nan
                 return (self._m4 / n) / d2 / d2
         elif n > 3:
             svar = self.variance(False)
+            if not svar > 0.0:
+                return math.nan
             return self._m4 / (n - 1) / svar / svar
         return math.nan
     
